@@ -76,6 +76,20 @@ def result_set_keyspace_body(ks):
     return struct.pack('>i', 3) + struct.pack('>H', len(b)) + b
 
 
+def supported_body(options=None):
+    import struct
+    opts = {'CQL_VERSION': ['3.4.5'], 'COMPRESSION': []}
+    opts.update(options or {})
+    out = struct.pack('>H', len(opts))
+    for k, vals in opts.items():
+        kb = k.encode()
+        out += struct.pack('>H', len(kb)) + kb + struct.pack('>H', len(vals))
+        for v in vals:
+            vb = v.encode()
+            out += struct.pack('>H', len(vb)) + vb
+    return out
+
+
 def error_body(code, message, extra=b''):
     import struct
     m = message.encode('utf8')
